@@ -49,6 +49,8 @@ MC_BUILDER = model('MC_Builder', 'MC_Builder_quick.cfg', 'MC_Builder_thorough.cf
                    cap=dict(quick=600, thorough=15000), tt=7200)
 MC_WRITER = model('MC_Writer', 'MC_Writer_quick.cfg', 'MC_Writer_thorough.cfg', need=['refused'])
 MC_FORMAT = model('MC_Format', 'MC_Format_quick.cfg', 'MC_Format_thorough.cfg', need=['len'], cap=dict(quick=800, thorough=20000))
+MC_MIXED = model('MC_Mixed', 'MC_Mixed_quick.cfg', 'MC_Mixed_thorough.cfg', need=['autotag'], cap=dict(quick=400, thorough=6000))
+MC_V1_LIVE = model('MC_StreamV1', 'MC_StreamV1_live.cfg', 'MC_StreamV1_live.cfg')
 MC_CONVERT = model('MC_Convert', 'MC_Convert.cfg', 'MC_Convert.cfg', need=['op'])
 
 PROPS = {
@@ -80,7 +82,7 @@ PROPS = {
     'C04': dict(
         gens=dict(quick=g('stream', v1good=200, v1struct=60, v1len=40, v2good=150, v2len=40, mixed=80),
                   thorough=g('stream', v1good=5000, v1struct=2000, v1len=600, v2good=4000, v2len=2000, mixed=2500)),
-        models=[MC_V1, MC_V2],
+        models=[MC_V1, MC_V2, MC_MIXED],
         rule='stream sessions whose header is followed by trailers (application bytes, another header, CR/LF/NUL, a '
              'digit, a TLV); non-trivial = an event after the first accept in the session, or the re-parse of the '
              'reported header alone; distinct = distinct inputs',
@@ -88,14 +90,14 @@ PROPS = {
     'C05': dict(
         gens=dict(quick=g('stream', v1good=250, v1len=40, v2good=200, v2len=40, mixed=80),
                   thorough=g('stream', v1good=6000, v1len=600, v2good=5000, v2len=2000, mixed=2500)),
-        models=[MC_V1, MC_V2],
+        models=[MC_V1, MC_V2, MC_MIXED],
         rule='stream sessions delivered mostly one byte per read, so every proper prefix is a state; non-trivial = the '
              'first accept of a session that visited at least one proper prefix of that header; distinct = distinct headers+splits',
     ),
     'C06': dict(
         gens=dict(quick=g('stream', mixed=200, v1good=80, v2good=80, v2corrupt=60, v1junk=60, bytes=60),
                   thorough=g('stream', mixed=6000, v1good=2000, v2good=2000, v2corrupt=2000, v1junk=2000, bytes=2000)),
-        models=[MC_V1, MC_V2],
+        models=[MC_MIXED, MC_V1, MC_V2],
         rule='every stream event (the three verdicts on the same buffer); non-trivial = non-empty buffer',
     ),
     'C07': dict(
@@ -112,6 +114,11 @@ PROPS = {
              'text entry points, plus Display of parsed headers; every event is non-trivial; distinct = distinct values',
     ),
     'C09': dict(
+        apalache=[
+            ('base case', ['--cinit=ConstFixed', '--init=Init', '--inv=IndInv', '--length=0'], 'ok'),
+            ('inductive step (unbounded histories)', ['--cinit=ConstFixed', '--init=IndInit', '--inv=IndInv', '--length=1'], 'ok'),
+            ('pinned build() violates C09', ['--cinit=ConstPinned', '--init=Init', '--inv=C09', '--length=3'], 'violation'),
+        ],
         gens=dict(quick=BUILDER_QUICK, thorough=BUILDER_THOROUGH),
         models=[MC_BUILDER],
         rule='builder call sequences with set_length at every position and totals around 65535; after every call the '
@@ -170,7 +177,7 @@ PROPS = {
     'C18': dict(
         gens=dict(quick=g('stream', v1struct=300, v1len=40, v1cr=120, v1corrupt=100, v1junk=100),
                   thorough=g('stream', v1struct=8000, v1len=600, v1cr=3000, v1corrupt=3000, v1junk=3000)),
-        models=[MC_V1],
+        models=[MC_V1, MC_V1_LIVE],
         rule='stream events whose buffer has a byte after its first CR, or >= 107 bytes and no CR; distinct = distinct inputs',
     ),
     'C19': dict(
